@@ -769,7 +769,19 @@ def run_case(ctx):
                 i = rng.choice(cand)
                 coeffs[i] = complex(complex(coeffs[i]).real, rng.choice([0.5, -0.5, 1e-3, -1e-3]))
                 rejected = True
+        twin = None
+        if m >= 2 and not rejected and rng.random() < 0.22:
+            # a Hamiltonian that lists one term TWICE (symmetric splittings A/2 + B + A/2 do): the last term repeats the
+            # first one - equal string, equal coefficient - as the very same object or as an equal copy; whatever
+            # sits in between usually does not commute with it.  Anything that finds "the position of this term" by
+            # equality (list.index, a dict keyed by the term) meets two candidates here
+            term_ops[-1] = dict(term_ops[0])
+            coeffs[-1] = coeffs[0]
+            twin = rng.choice(["same-object", "equal-copy"])
+            mon.note(f"{cls}-twin-terms:{twin}")
         terms = [make_term(rng, o, c)[0] for o, c in zip(term_ops, coeffs)]
+        if twin == "same-object":
+            terms[-1] = terms[0]
         r = rng.random()
         if m == 1 and r < 0.5:
             ham, form = terms[0], "term"
